@@ -36,8 +36,9 @@ I32_MAX = (1 << 31) - 1
 
 # at most this many integer members of a message whose described set needs more than one varint byte are
 # left unrestricted in a roundtrip/reject harness; the others are symbolic within described set /\ [-64, 63]
-WIDE_MAX = 2
+WIDE_MAX = 1
 TOTAL_TAIL = 6
+SEED = [0]
 
 INT_KINDS = ("int32", "boolean", "enum", "flags", "tick", "tune_param")
 
@@ -412,7 +413,9 @@ class MsgGen:
 
     def plan_values(self, reject):
         wide = [i for i, s in enumerate(self.slots) if s.kind in INT_KINDS and not is_narrow(s.ivs)]
-        keep_wide = set(wide[:WIDE_MAX])
+        # which of the wide members stay unrestricted rotates with the seed
+        rot = (SEED[0] + sum(ord(c) for c in self.base)) % len(wide) if wide else 0
+        keep_wide = set((wide[rot:] + wide[:rot])[:WIDE_MAX])
         plans = []
         nstr = 0
         narrowed = 0
@@ -535,7 +538,7 @@ class MsgGen:
             "fn %s() {" % name,
         ]
 
-    def entry(self, name, bounds, mem=6, timeout=400):
+    def entry(self, name, bounds, mem=6, timeout=600):
         fam = self.enum
         return {
             "name": name,
@@ -706,7 +709,7 @@ class MsgGen:
         L.append("    assert!(as_described);")
         L.append("    assert!(w.count == 0);")
         L.append("}")
-        e = self.entry(name, "all %d trailing optional members absent; other members as in the roundtrip harness" % (len(self.slots) - first))
+        e = self.entry(name, "all %d trailing optional members absent; other members as in the roundtrip harness" % (len(self.slots) - first), mem=4)
         return {"entry": e, "code": "\n".join(L) + "\n", "kinds": set(self.kinds), "family": self.family, "shape": "optabsent", "crate": self.short, "weight": len(self.slots) + n}
 
 
@@ -805,6 +808,7 @@ def choose_quick(recs, seed):
 
 def main():
     repo, hdir, tier, seed, pid = sys.argv[1], sys.argv[2], sys.argv[3], int(sys.argv[4]), sys.argv[5] if len(sys.argv) > 5 else ""
+    SEED[0] = seed
     files = {c[0]: ["// generated by harness/gen/gen_gamenet.py from gamenet/generate/spec/%s on this run\n" % c[1]] for c in CRATES}
     entries = []
     if pid == "C14":
